@@ -54,15 +54,16 @@ impl<P: SingleObjectiveProblem> Component<P> for ExponentialAnnealingAcceptance 
     fn execute(&self, _problem: &P, state: &mut State<P>) -> ExecResult<()> {
         let mut populations = state.populations_mut();
 
-        let o_current = populations
+        // The candidate is the top-most population, the current solution lies below it.
+        let o_candidate = populations
             .peek(0)
             .first()
-            .wrap_err("current solution is missing")?
+            .wrap_err("candidate solution is missing")?
             .objective();
-        let o_candidate = populations
+        let o_current = populations
             .peek(1)
             .first()
-            .wrap_err("candidate solution is missing")?
+            .wrap_err("current solution is missing")?
             .objective();
 
         let t = state.get_value::<Temperature>();
